@@ -10,6 +10,7 @@ alone, and the sequence of executed marked lines (thread, label).
 Search: random schedules on cold and warm contexts with 2-16 threads, the witness of the
 refutation lemma, and an un-forced 16-thread stress with a tiny switch interval.
 """
+import json
 import os
 
 import c14
@@ -204,9 +205,45 @@ def run(ck: Check):
         st = run_impl("impl_c19.py", dict(payload, runs=[], stress={"rounds": ck.n(60, 2000),
                                                                    "threads": [by_tag[t] for t in names_] * 2}),
                       timeout=900)["stress"]
-        ck.failure("corr-marked-lines", "a source line the model's atomic actions are mapped to was not found: "
-                   + probe["mark_error"], {"marks": MARKS, "error": probe["mark_error"],
-                                           "unforced_stress": st})
+        # ... and with forced yield points on EVERY line of context.py / models/elements.py / parsers/dict.py (no marks, no
+        # model needed: the oracle is the solo result) over thread pairs that are ns-closed on the unchanged tree
+        fb_pairs = [("dec-auto:x", "find_type:{urn:none}Nobody"), ("dec-auto:x", "parse:nobody"), ("by_fields:x", "find_type:{urn:none}Nobody"),
+                    ("jparse-auto:PA", "find_type:{urn:none}Nobody"), ("dec-auto:x", "dec-auto:x"), ("parse-auto:PA", "find_type:Leaf"),
+                    ("parse:Holder", "parse:Holder-xsi-Ext"), ("ser:PA", "parse:PA"), ("dec-auto:Own", "find_types:Leaf"),
+                    ("parse-auto:Own", "ser:Own"), ("find_type:Leaf", "find_type:Leaf"), ("parse:Holder", "find_subclass:Base,Der2"),
+                    ("dec-auto:x", "by_fields:y"), ("parse-auto:Tgt", "find_type:{urn:h}Base")]
+        fb_sets = [[by_tag[a], by_tag[b]] for a, b in fb_pairs if a in by_tag and b in by_tag]
+        fb_sets += [fs + [fs[0]] for fs in fb_sets[:6]]
+        fb_runs = [{"warm": warm, "threads": fs, "seed": r.randrange(1 << 30)}
+                   for fs in fb_sets for warm in ([], [by_tag["find_type:Leaf"]]) for _ in range(ck.n(6, 40))]
+        nproc = ck.n(6, 12)
+        import concurrent.futures as cf
+        with cf.ThreadPoolExecutor(max_workers=nproc) as ex:
+            fouts = list(ex.map(lambda k: run_impl("impl_c19.py", dict(payload, runs=[], free_runs=fb_runs[k::nproc]), timeout=1800)["free"],
+                                range(nproc)))
+        found = 0
+        for k, fo in enumerate(fouts):
+            for fr, out in zip(fb_runs[k::nproc], fo):
+                what = f"threads {[ops[t]['tag'] for t in fr['threads']]} after {[ops[t]['tag'] for t in fr['warm']]} (seed {fr['seed']})"
+                if out["status"] == "ok" and out["results"] != out["solo"] and found < 3:
+                    found += 1
+                    bad = [i for i, (a, b) in enumerate(zip(out["results"], out["solo"])) if a != b][0]
+                    ck.failure("concurrent-difference-inside-guard",
+                               "forced yield points on every line of context.py / models/elements.py / parsers/dict.py: a thread's result "
+                               f"differs from its solo run: {what}: {out['results'][bad]} vs {out['solo'][bad]}",
+                               {"run": {"warm": [ops[t]["tag"] for t in fr["warm"]], "threads": [ops[t]["tag"] for t in fr["threads"]],
+                                        "seed": fr["seed"]}, "results": out["results"], "solo": out["solo"]})
+        if st.get("mismatches"):
+            m = st["mismatches"][0]
+            ck.failure("cold-index-race", "un-forced 16-thread stress on a cold context: a call differs from its solo result "
+                       f"({ops[m['op']]['tag']}: {m['got']} vs {m['solo']})", {"stress": st})
+        ck.cov["evaluations"] = sum(len(fr["threads"]) for fr in fb_runs)
+        ck.notes.append("marked lines not found (" + probe["mark_error"] + f"); model-free search: {len(fb_runs)} forced-yield runs, "
+                        f"{found}+ mismatching, un-forced stress mismatches: {len(st.get('mismatches') or [])}")
+        # the tie between the interleaving model and context.py no longer checks (reported with no-failing-input-found
+        # unless the search above produced a concrete schedule)
+        ck.broken_obligation("corr-marked-lines", "a source line the model's atomic actions are mapped to was not found: "
+                             + probe["mark_error"] + "\nmarks: " + json.dumps({str(k): list(v) for k, v in MARKS.items()}))
         return ck.finish(obligations=obligations, discharged=discharged, checker_cmd="coqc", trusted_base=TRUSTED_COMMON)
     n_index = len(probe["order"])
     stress_threads = [by_tag[t] for t in ("parse-auto:PA", "find_type:Leaf", "parse:Holder", "parse-auto:Own", "ser:Own",
